@@ -105,7 +105,7 @@ func inspectBlocks(src []byte) (map[int][]blockSite, error) {
 
 // C04: every accepted grammar yields Go code that compiles, vets and initialises.
 func C04(c *Ctx) {
-	c.Rule("grammars with adversarial rule names (digit suffixes, prefixes of one another, non-ASCII letters, names resembling the generated on*/call* methods) and labels at every scope boundary, with and without state blocks, each generated under ALL 32 combinations of -optimize-parser, -optimize-grammar, -optimize-basic-latin, -support-left-recursion, -nolint with the receiver name rotating over c, p, cur, self; " +
+	c.Rule("grammars with adversarial rule names (digit suffixes, prefixes of one another, non-ASCII letters, names resembling the generated on*/call* methods) and labels at every scope boundary, with and without state blocks, each generated under ALL 32 combinations of -optimize-parser, -optimize-grammar, -optimize-basic-latin, -support-left-recursion, -nolint with the receiver name rotating over c, p, cur, self and -cache added to every third set; " +
 		"oracle per (grammar, flag set): pigeon exits 0; go/format leaves the file unchanged; go build and go vet of the package succeed; a process importing the packages starts (package init runs) and parses one input per package to the model's value; " +
 		"by go/parser inspection each code-block id occurs in exactly one method of *current whose parameter list is exactly the model's label scope (checked without -optimize-grammar, which legitimately duplicates blocks); " +
 		"plus: every Unicode class name the front-end accepts (enumerated through the hook, all of them) is used in a class, generated with and without -optimize-basic-latin, initialised and matched against a member. " +
@@ -123,6 +123,11 @@ func C04(c *Ctx) {
 		}
 		if r := recv[m%4]; r != "c" {
 			fs = append(fs, "-receiver-name", r)
+		}
+		if m%3 == 1 {
+			// -cache only memoizes pigeon's own parse of the grammar text: the property lists it among
+			// the flags every combination of which must yield compiling code
+			fs = append(fs, "-cache")
 		}
 		flagSets = append(flagSets, fs)
 	}
